@@ -135,8 +135,15 @@ def run_ble(case):
     fam = {n for n, c in vars(core).items() if isinstance(c, type) and issubclass(c, core.APIConnectionError)}
     r = c16.run_case(case["ble"])
     res = CaseResult(nontrivial=True, classes=["ble_calls"], info=r.info)
+    import re
+
     for v in r.violations:
         sig = v.signature
+        m = re.search(r"(?:timeout|ended|finished)? ?at ([0-9.]+), expected at ([0-9.]+)", v.detail) if "completion-time" in sig else None
+        if m and float(m.group(1)) > float(m.group(2)) + 1e-6:
+            # the call overran its documented bound (connect timeout + disconnect timeout)
+            res.violations.append(Violation(ID, "c09:ble:too-slow", v.detail[:300]))
+            continue
         if ":raised:" in sig or "never-finished" in sig:
             name = sig.split(":raised:")[-1].split("-")[0] if ":raised:" in sig else ""
             if name in fam:
@@ -437,8 +444,19 @@ def _ble_cases():
             yield {"kind": "ble", "ble": {"noise": False, "ops": [o], "chunks": [{"t": 21, "msgs": msgs}]}}
 
 
+def _ble_connect_silent_cases():
+    """The proxy answers neither the connect request nor the clean-up disconnect: the call ends after connect timeout +
+    disconnect timeout, whichever of the two is the larger."""
+    A = 0xAABBCCDDEEFF
+    for fl in ("v1", "v3cache", "v3nocache"):
+        for tmo, dt in ((1, 2), (2, 1), (3, 1), (2, 2), (1, 0)):
+            yield {"kind": "ble", "ble": {"noise": False, "chunks": [],
+                                          "ops": [{"id": "op0", "kind": "connect", "addr": A, "t": 2, "timeout": tmo, "dtimeout": dt, "flavour": fl, "address_type": 1 if fl == "v1" else None}]}}
+
+
 def enumerated(tier):
     yield from _ble_cases()
+    yield from _ble_connect_silent_cases()
     yield from _stream_cases()
     yield from _big_request_cases()
     yield from _reconnect_cases()
